@@ -30,7 +30,7 @@ def run(ctx):
             followers = "leveldb,pebble" if (quick or i % 2 == 0) else "pebble,memory"
             tr, info = zc.run_chaindrv(ctx, drv, "c06-%d" % i, seed, steps, sub,
                                        extra=["-reexec", "1,4,16" if quick else "1,2,4,16,3", "-followers", followers,
-                                              "-trimdepth", 4] + (["-index"] if (not quick and i % 3 == 2) else []))
+                                              "-trimdepth", 4, "-lockups"] + (["-index"] if (not quick and i % 3 == 2) else []))
             for pr in info.get("problems") or []:
                 if pr["kind"] in C06_PROBLEMS:
                     vlib.report(ctx, {"kind": pr["kind"]}, {"seed": seed, "steps": steps, "problem": pr, "trace": str(tr)})
@@ -73,6 +73,7 @@ def run(ctx):
                         "scanned records after every step; TLC validates the trace against ZoneChain.tla")
     finally:
         shutil.rmtree(dbdir, ignore_errors=True)
+    zc.check_aborted(ctx)
     vlib.write_evidence(ctx, "model_checking", cov, [
         "multiset/MuHash, trie and the storage engines are trusted; hashes are treated as injective",
         "single-zone topology (expansion 0); protocol time scales compressed by setting package variables",
